@@ -50,19 +50,37 @@ def build_chain(tk_tokens, levels):
         levels = levels[:-1]
     if DEPTH > 0:
         p = Parent(id="assembly1", sequence_type="assembly")
+    upper = None
     for (lid, ltype, lseq, place) in reversed(levels):
         seq = Sequence(lseq, Alphabet.NT_STRICT, id=lid, type=ltype) if lseq is not None else None
         loc = None
         if place is not None:
             sub = Toks(tk_tokens)
             sub.i = place[1]
-            loc = parse_loc(sub)
+            # REF style (lines marked ` @r`): the location that places the level below on THIS level carries its own
+            # light reference to this level - id and type only, the way io.parser.seq_chunk_to_parent writes the place
+            # of a chunk on its chromosome
+            ref = None
+            if REF_STYLE[0] and lseq is None:
+                ref = Parent(id=lid, sequence_type=ltype)
+            loc = parse_loc(sub, parent=ref) if ref is not None else parse_loc(sub)
         p = Parent(id=lid, sequence_type=ltype, sequence=seq, location=loc, parent=p)
+        upper = (lid, ltype, lseq)
     return p
+
+
+REF_STYLE = [False]
+REF_MARK = " @r"
 
 
 def impl_lift_op(line):
     global DEPTH
+    if line.endswith(REF_MARK):
+        REF_STYLE[0] = True
+        try:
+            return impl_lift_op(line[:-len(REF_MARK)])
+        finally:
+            REF_STYLE[0] = False
     if line.startswith("@depth"):
         # decoy: the same operation on the same levels in a hierarchy of another depth (answer discarded by the engine)
         head, rest = line.split(" ", 1)
